@@ -11,6 +11,7 @@ import (
 	"errors"
 	"fmt"
 	"io"
+	"log"
 	mrand "math/rand/v2"
 	"net/http"
 	"net/http/httptest"
@@ -102,6 +103,11 @@ type c09Step struct {
 	// encrypts the assertion to ("" = rsa1's, the one this SP published while rsa1 was its key; "rsa4" = that of another RSA key)
 	SPKey string `json:"sp_key,omitempty"`
 	EncTo string `json:"encrypted_to,omitempty"`
+	// the Status a reply carries (bad_status, status-shape): how many subordinate StatusCodes are nested in the top-level one, which
+	// StatusMessage goes with it (0 = none, n = c09StatusMessages[n-1]), and whether a StatusDetail does
+	Sub    int  `json:"status_subordinate_codes,omitempty"`
+	Msg    int  `json:"status_message,omitempty"`
+	Detail bool `json:"status_detail,omitempty"`
 }
 
 // c09Artifact renders the SAMLart value for a resolve step.
@@ -726,6 +732,128 @@ func c09EncryptBytesWith(plain []byte, kp KeyPair, bc xmlenc.BlockCipher, kt int
 	return ea
 }
 
+// ---- the Status of a reply (samlp:StatusType): a top-level code, subordinate codes nested in it to any depth, an optional
+// StatusMessage, an optional StatusDetail with anything in it
+
+var c09StatusTops = []string{"urn:oasis:names:tc:SAML:2.0:status:Requester", "urn:oasis:names:tc:SAML:2.0:status:Responder",
+	"urn:oasis:names:tc:SAML:2.0:status:VersionMismatch", "urn:oasis:names:tc:SAML:2.0:status:Success"}
+
+// second-level codes of the specification, one of somebody's own, an empty one, and one without the Value attribute
+var c09SubCodes = []string{"urn:oasis:names:tc:SAML:2.0:status:AuthnFailed", "urn:oasis:names:tc:SAML:2.0:status:NoPassive",
+	"urn:oasis:names:tc:SAML:2.0:status:RequestDenied", "urn:example:reason:session-expired", "", "@no-value"}
+
+var c09StatusMessages = []string{"The user cancelled the login", "", " \n\t ", "100%s sure: %d %v %!s(MISSING) {0}\nsecond line", strings.Repeat("no ", 30_000)}
+
+func c09TopName(top string) string { return top[strings.LastIndex(top, ":")+1:] }
+
+// c09StatusTag names the shape of a step's Status for signatures and counters.
+func c09StatusTag(st *c09Step) string {
+	tag := fmt.Sprintf("subcodes-%d", st.Sub)
+	if st.Msg > 0 {
+		tag += "+message"
+	}
+	if st.Detail {
+		tag += "+detail"
+	}
+	return tag
+}
+
+// c09SetStatus rewrites a Status element: top-level code top, st.Sub codes nested below it, message and detail as the step says.
+func c09SetStatus(status *etree.Element, top string, st *c09Step) {
+	tag := func(name string) string {
+		if status.Space != "" {
+			return status.Space + ":" + name
+		}
+		return name
+	}
+	for _, c := range status.ChildElements() {
+		status.RemoveChild(c)
+	}
+	cur := status.CreateElement(tag("StatusCode"))
+	cur.CreateAttr("Value", top)
+	for i := 0; i < st.Sub; i++ {
+		cur = cur.CreateElement(tag("StatusCode"))
+		if v := c09SubCodes[(st.Variant/len(c09StatusTops)+i)%len(c09SubCodes)]; v != "@no-value" {
+			cur.CreateAttr("Value", v)
+		}
+	}
+	if st.Msg > 0 {
+		status.CreateElement(tag("StatusMessage")).SetText(c09StatusMessages[(st.Msg-1)%len(c09StatusMessages)])
+	}
+	if st.Detail {
+		d := status.CreateElement(tag("StatusDetail"))
+		c := d.CreateElement("ex:Cause")
+		c.CreateAttr("xmlns:ex", "urn:example:detail")
+		c.CreateAttr("code", "42")
+		c.SetText("directory unavailable")
+	}
+}
+
+// c09EnvStatus rewrites the Status of the ArtifactResponse inside a SOAP envelope.
+func c09EnvStatus(env []byte, top string, st *c09Step) []byte {
+	doc := etree.NewDocument()
+	if err := doc.ReadFromBytes(env); err != nil {
+		panic(err)
+	}
+	ar := doc.FindElement("//ArtifactResponse")
+	if ar == nil {
+		return env
+	}
+	status := ar.SelectElement("Status")
+	if status == nil {
+		return env
+	}
+	c09SetStatus(status, top, st)
+	b, err := doc.WriteToBytes()
+	if err != nil {
+		panic(err)
+	}
+	return b
+}
+
+// c09StatusOnArtifact: a status-shape step on an artifact entry point shapes the ArtifactResponse's Status (odd N) or the Response's.
+func c09StatusOnArtifact(st *c09Step) bool {
+	return st.Kind == "corrupt" && st.Op == "status-shape" && st.Family == "response" && st.N%2 == 1 && strings.Contains(st.Entry, "rtifact")
+}
+
+func c09CountStatus(res *Result, where string, top string, st *c09Step) {
+	res.Extra[fmt.Sprintf("status:%s:%s:subcodes-%d", where, map[bool]string{true: "success", false: "failure"}[top == c09StatusTops[3]], st.Sub)]++
+	if st.Sub > 0 {
+		res.probe("status-with-subordinate-codes")
+	}
+	if st.Msg > 0 {
+		res.probe("status-with-message")
+	}
+	if st.Detail {
+		res.probe("status-with-detail")
+	}
+}
+
+// ---- SOAP faults: what a resolver that cannot answer puts into the Body. SOAP 1.1 says faultcode and faultstring (unqualified),
+// optionally faultactor and detail; resolvers in the field also send less, more, qualified or SOAP 1.2 children.
+
+const c09Soap11, c09Soap12 = "http://schemas.xmlsoap.org/soap/envelope/", "http://www.w3.org/2003/05/soap-envelope"
+
+var c09SoapFaults = []struct{ name, ns, body string }{
+	{"code+string", c09Soap11, `<soap:Fault><faultcode>soap:Server</faultcode><faultstring>artifact unknown</faultstring></soap:Fault>`},
+	{"code-only", c09Soap11, `<soap:Fault><faultcode>soap:Server</faultcode></soap:Fault>`},
+	{"string-only+detail", c09Soap11, `<soap:Fault><faultstring>artifact unknown</faultstring><detail/></soap:Fault>`},
+	{"empty", c09Soap11, `<soap:Fault/>`},
+	{"qualified-children", c09Soap11, `<soap:Fault><soap:faultcode>soap:Client</soap:faultcode><soap:faultstring>no</soap:faultstring></soap:Fault>`},
+	{"code+soap12-reason", c09Soap11, `<soap:Fault><faultcode>soap:Client</faultcode><Reason><Text>no</Text></Reason></soap:Fault>`},
+	{"empty-code-and-string", c09Soap11, `<soap:Fault><faultcode/><faultstring/></soap:Fault>`},
+	{"actor+detail", c09Soap11, `<soap:Fault><faultcode>soap:Server</faultcode><faultstring xml:lang="en">artifact unknown</faultstring><faultactor>https://idp.example.com/artifact</faultactor><detail><e:cause xmlns:e="urn:example:detail">spent</e:cause></detail></soap:Fault>`},
+	{"string-before-code", c09Soap11, `<soap:Fault><faultstring>artifact unknown</faultstring><faultcode>soap:Server</faultcode></soap:Fault>`},
+	{"two-faults", c09Soap11, `<soap:Fault><faultcode>soap:Server</faultcode></soap:Fault><soap:Fault><faultstring>again</faultstring></soap:Fault>`},
+	{"soap12", c09Soap12, `<soap:Fault><soap:Code><soap:Value>soap:Receiver</soap:Value></soap:Code><soap:Reason><soap:Text xml:lang="en">artifact unknown</soap:Text></soap:Reason></soap:Fault>`},
+	{"long-string", c09Soap11, `<soap:Fault><faultstring>` + strings.Repeat("artifact unknown ", 6000) + `</faultstring></soap:Fault>`},
+}
+
+func c09SoapFault(variant int) (name string, doc []byte) {
+	f := c09SoapFaults[variant%len(c09SoapFaults)]
+	return f.name, []byte(`<soap:Envelope xmlns:soap="` + f.ns + `"><soap:Body>` + f.body + `</soap:Body></soap:Envelope>`)
+}
+
 // ---- logout family
 
 var c09LogoutOmits = []string{
@@ -1238,6 +1366,13 @@ func c09StructMut(st *c09Step) func(*etree.Element) {
 		}
 	case st.Op == "huge-attribute" && st.Variant%2 == 1:
 		return func(el *etree.Element) { el.CreateAttr("Consent", strings.Repeat("A", st.N)) }
+	case st.Op == "status-shape" && !c09StatusOnArtifact(st):
+		// the issuer reports a failure the way the specification says (or success, with remarks): set before signing
+		return func(el *etree.Element) {
+			if status := el.SelectElement("Status"); status != nil {
+				c09SetStatus(status, c09StatusTops[st.Variant%len(c09StatusTops)], st)
+			}
+		}
 	}
 	return nil
 }
@@ -1544,19 +1679,23 @@ func c09ArtPayload(st *c09Step, resolveID, prevID string, t0 time.Time) []byte {
 		}
 	case "bad_status":
 		if st.Variant%2 == 0 {
-			artStatus = "urn:oasis:names:tc:SAML:2.0:status:Requester"
+			artStatus = c09StatusTops[0]
 		} else {
 			o.MutResp = func(el *etree.Element) {
-				if sc := el.FindElement("./Status/StatusCode"); sc != nil {
-					sc.CreateAttr("Value", "urn:oasis:names:tc:SAML:2.0:status:Responder")
+				if status := el.SelectElement("Status"); status != nil {
+					c09SetStatus(status, c09StatusTops[1], st)
 				}
 			}
 		}
 	case "soap_fault":
-		return []byte(`<soap:Envelope xmlns:soap="http://schemas.xmlsoap.org/soap/envelope/"><soap:Body><soap:Fault><faultcode>soap:Server</faultcode><faultstring>artifact unknown</faultstring></soap:Fault></soap:Body></soap:Envelope>`)
+		_, doc := c09SoapFault(st.Variant)
+		return doc
 	}
 	respEl := c09BuildResponse(o, t0)
 	env := wrapArtifactResponse(respEl, "id-art-0", irt, c09IdpEntity, artStatus, t0, nil)
+	if st.Fault == "bad_status" && st.Variant%2 == 0 {
+		env = c09EnvStatus(env, artStatus, st)
+	}
 	if st.Fault != "wrong_envelope" {
 		return env
 	}
@@ -1737,6 +1876,24 @@ func c09ExecBack(p *Plan, k c09Knobs, res *Result) {
 		if st.Fault == "status" || st.Fault == "status_endless" {
 			shape = fmt.Sprintf("%s-%d", strings.ReplaceAll(st.Fault, "_", "-"), st.Code)
 		}
+		if st.Fault == "soap_fault" && st.Kind == "resolve" {
+			name, _ := c09SoapFault(st.Variant)
+			res.Extra["soap-fault:"+name]++
+			if st.Variant%len(c09SoapFaults) != 0 {
+				shape += "-" + name
+				res.probe("soap-fault-other-than-faultcode+faultstring")
+			}
+		}
+		if st.Fault == "bad_status" && st.Kind == "resolve" {
+			where, top := "artifact-response", c09StatusTops[0]
+			if st.Variant%2 == 1 {
+				where, top = "response-in-artifact-response", c09StatusTops[1]
+			}
+			c09CountStatus(res, where, top, &st)
+			if st.Sub > 0 || st.Msg > 0 || st.Detail {
+				shape += "-" + c09StatusTag(&st)
+			}
+		}
 		var pan *c09Panic
 		var observed string
 		if st.Kind == "resolve" {
@@ -1900,6 +2057,13 @@ func c09Shape(st *c09Step) string {
 	if st.Layer != "" && st.Layer != "xml" {
 		return st.Op + "-" + st.Layer
 	}
+	if st.Op == "status-shape" {
+		shape := "status-" + c09TopName(c09StatusTops[st.Variant%len(c09StatusTops)]) + "-" + c09StatusTag(st)
+		if c09StatusOnArtifact(st) {
+			shape += "+on-artifact-response"
+		}
+		return shape
+	}
 	return st.Op
 }
 
@@ -1942,6 +2106,87 @@ func c09Mut(st *c09Step) func(*etree.Element) {
 		return c09StructMut(st)
 	}
 	return nil
+}
+
+// ---- the bundled middleware as the consumer of a response (samlsp.Middleware at /saml/acs): the library's own handler in front of
+// ParseResponse, with the library's own default error handler behind it
+
+// c09Tracker stands for the application's request tracker: one login is pending, the one the foreign IdP answers.
+type c09Tracker struct{}
+
+func (c09Tracker) TrackRequest(http.ResponseWriter, *http.Request, string) (string, error) {
+	return "rs", nil
+}
+func (c09Tracker) StopTrackingRequest(http.ResponseWriter, *http.Request, string) error { return nil }
+func (c09Tracker) GetTrackedRequests(*http.Request) []samlsp.TrackedRequest {
+	return []samlsp.TrackedRequest{{Index: "rs", SAMLRequestID: c09ReqID, URI: c09AfterLogin}}
+}
+func (c09Tracker) GetTrackedRequest(_ *http.Request, index string) (*samlsp.TrackedRequest, error) {
+	if index != "rs" {
+		return nil, http.ErrNoCookie
+	}
+	return &samlsp.TrackedRequest{Index: "rs", SAMLRequestID: c09ReqID, URI: c09AfterLogin}, nil
+}
+
+const c09AfterLogin = "/after-login"
+
+// c09LogSink is where the standard logger writes while the middleware runs: the library's default error handler formats its
+// line as it does in production (io.Discard would make the logger skip the formatting), and the line goes nowhere.
+type c09LogSink struct{}
+
+func (c09LogSink) Write(p []byte) (int, error) { return len(p), nil }
+
+// c09NewMiddleware: the middleware around the step's service provider. Its session tokens are signed with an RSA key of the
+// application's (samlsp.New takes RSA and ECDSA keys only); the service provider inside is the step's, with whatever key that holds.
+func c09NewMiddleware(spv *saml.ServiceProvider) *samlsp.Middleware {
+	kp := rsaKeys[1]
+	m, err := samlsp.New(samlsp.Options{URL: mustURL(c09SpBase + "/"), Key: kp.Key, Certificate: kp.Cert, IDPMetadata: spv.IDPMetadata})
+	if err != nil {
+		panic(fmt.Sprintf("harness: samlsp.New: %v", err))
+	}
+	m.ServiceProvider = *spv
+	m.RequestTracker = c09Tracker{}
+	return m
+}
+
+// c09ServeACS delivers r to the middleware and judges the reply: no panic, exactly one well-formed reply; the genuine message logs
+// the user in (a redirect to where the pending login started, with a session cookie); expect REJECT: no session.
+func (c *c09Ctx) c09ServeACS(st *c09Step, shape, expect string, spv *saml.ServiceProvider, r *http.Request) {
+	m := c09NewMiddleware(spv)
+	old := log.Writer()
+	log.SetOutput(c09LogSink{})
+	w, pan := c09Serve(m, r)
+	log.SetOutput(old)
+	synctest.Wait()
+	c.res.probe("delivered-to-samlsp.Middleware")
+	obs := ""
+	switch {
+	case pan != nil:
+		obs = "PANIC(" + pan.Func + ")"
+	case w.afterBody > 0 || w.code < 200 || w.code > 599:
+		obs = fmt.Sprintf("MALFORMED-REPLY(%d,%d)", w.code, w.headers)
+	case w.code == http.StatusFound && len(w.h["Set-Cookie"]) > 0:
+		obs = "SESSION(" + w.h.Get("Location") + ")"
+	default:
+		obs = fmt.Sprintf("STATUS-%dxx", w.code/100)
+	}
+	c.res.logf("step %d %s %s shape=%s layout=%s enc=%v expect=%s observed=%s", c.si, st.Kind, st.Entry, shape, st.Layout, st.Encrypt, expect, obs)
+	if c.res.Violation != nil {
+		return
+	}
+	fn := c09Func(st.Entry)
+	switch {
+	case pan != nil:
+		c.panicViolation(st.Entry, shape, pan)
+	case strings.HasPrefix(obs, "MALFORMED"):
+		c.res.violate(c.si, "reply", "C09/reply/"+fn+"/"+shape, "exactly one well-formed HTTP reply", obs, "")
+	case expect == "ACCEPT" && obs != "SESSION("+c09AfterLogin+")":
+		c.res.violate(c.si, "genuine-rejected", "C09/genuine-rejected/"+fn+"/"+shape, "SESSION("+c09AfterLogin+")", obs, "")
+	case expect == "REJECT" && strings.HasPrefix(obs, "SESSION"):
+		c.res.violate(c.si, "accepted-on-failure", "C09/accepted-on-failure/"+fn+"/"+shape, "no session", obs, "")
+	case expect == "ANY":
+		c.res.dontcare("accept-or-reject-open:" + fn)
+	}
 }
 
 // ---- response family
@@ -2025,12 +2270,47 @@ func c09ExecResponse(c *c09Ctx, st *c09Step, k c09Knobs) {
 			shape += "+sp-key-" + st.SPKey
 		}
 	}
+	if st.Kind == "corrupt" && st.Op == "status-shape" {
+		where := "response"
+		if c09StatusOnArtifact(st) {
+			where = "artifact-response"
+		}
+		c09CountStatus(c.res, where, c09StatusTops[st.Variant%len(c09StatusTops)], st)
+	}
+	artStatus := func(env []byte) []byte {
+		if c09StatusOnArtifact(st) {
+			return c09EnvStatus(env, c09StatusTops[st.Variant%len(c09StatusTops)], st)
+		}
+		return env
+	}
 	ids := []string{c09ReqID}
 	var as *saml.Assertion
 	var err error
 	var pan *c09Panic
 	t0 := time.Now()
 	switch st.Entry {
+	case "samlsp.Middleware/post", "samlsp.Middleware/artifact":
+		var r *http.Request
+		var tr *c09Transport
+		if st.Entry == "samlsp.Middleware/post" {
+			body := c09XMLLayer(elBytes(c09BuildResponse(o, t0)), st)
+			r = postRequest(c09Acs, url.Values{"SAMLResponse": {c09B64Layer(c09B64(body), st)}, "RelayState": {"rs"}})
+		} else {
+			tr = &c09Transport{handler: func(req *http.Request, body []byte) *c09Resp {
+				env := wrapArtifactResponse(c09BuildResponse(o, t0), "id-art-0", c09ResolveID(body), c09IdpEntity, saml.StatusSuccess, t0, nil)
+				if st.Kind == "omit" {
+					env = c09OmitArtifact(env, st.Omit)
+				}
+				return c09Plain(c09XMLLayer(artStatus(env), st))
+			}}
+			spv.HTTPClient = &http.Client{Transport: tr, Timeout: 30 * time.Second}
+			r = postRequest(c09Acs, url.Values{"SAMLart": {c09Artifact(st)}, "RelayState": {"rs"}})
+		}
+		c.c09ServeACS(st, shape, expect, spv, r)
+		if tr != nil && tr.Open != 0 && c.res.Violation == nil {
+			c.res.violate(c.si, "connection-left-open", "C09/leak/resolve/"+shape, "every response body closed or drained when the call returns", fmt.Sprintf("%d open", tr.Open), "")
+		}
+		return
 	case "ParseXMLResponse":
 		body := c09XMLLayer(elBytes(c09BuildResponse(o, t0)), st)
 		cpu0 := c09CPUSeconds()
@@ -2067,7 +2347,7 @@ func c09ExecResponse(c *c09Ctx, st *c09Step, k c09Knobs) {
 		if st.Kind == "omit" {
 			env = c09OmitArtifact(env, st.Omit)
 		}
-		env = c09XMLLayer(env, st)
+		env = c09XMLLayer(artStatus(env), st)
 		pan = c09Guard(func() { as, err = spv.ParseXMLArtifactResponse(env, ids, "id-resolve", spv.AcsURL) })
 	case "ParseResponse/artifact":
 		tr := &c09Transport{handler: func(req *http.Request, body []byte) *c09Resp {
@@ -2075,7 +2355,7 @@ func c09ExecResponse(c *c09Ctx, st *c09Step, k c09Knobs) {
 			if st.Kind == "omit" {
 				env = c09OmitArtifact(env, st.Omit)
 			}
-			return c09Plain(c09XMLLayer(env, st))
+			return c09Plain(c09XMLLayer(artStatus(env), st))
 		}}
 		spv.HTTPClient = &http.Client{Transport: tr, Timeout: 30 * time.Second}
 		form := url.Values{"SAMLart": {"AAQAAMFbLinlXaCM+FIxiDwGOLAy2T71gbpO7ZhNzAgEANlB90ECfpNEVLg="}}
@@ -2112,6 +2392,9 @@ func c09ExecLogout(c *c09Ctx, st *c09Step) {
 	var omit []string
 	if st.Kind == "omit" {
 		omit = st.Omit
+	}
+	if st.Kind == "corrupt" && st.Op == "status-shape" {
+		c09CountStatus(c.res, "logout-response", c09StatusTops[st.Variant%len(c09StatusTops)], st)
 	}
 	signed := !c09Has(omit, "logout-no-signature")
 	x := c09XMLLayer(elBytes(c09BuildLogout(omit, signed, t0, c09Mut(st))), st)
@@ -2433,7 +2716,7 @@ func c09ExecMetadata(c *c09Ctx, st *c09Step) {
 // ---------------------------------------------------------------- generation
 
 var c09Entries = map[string][]string{
-	"response":     {"ParseXMLResponse", "ParseXMLResponse", "ParseResponse/post", "ParseXMLArtifactResponse", "ParseResponse/artifact"},
+	"response":     {"ParseXMLResponse", "ParseXMLResponse", "ParseResponse/post", "ParseXMLArtifactResponse", "ParseResponse/artifact", "samlsp.Middleware/post", "samlsp.Middleware/artifact"},
 	"logout":       {"ValidateLogoutResponseForm", "ValidateLogoutResponseRedirect", "ValidateLogoutResponseRequest/get", "ValidateLogoutResponseRequest/post"},
 	"authnrequest": {"IdpAuthnRequest.Validate/get", "IdpAuthnRequest.Validate/post", "IdentityProvider.ServeSSO/get", "IdentityProvider.ServeSSO/post", "samlidp.Server/get", "samlidp.Server/post"},
 	"spmetadata":   {"IdentityProvider.ServeSSO/get", "IdentityProvider.ServeSSO/post", "samlidp.Server/get", "samlidp.Server/post", "IdpAuthnRequest.Validate/get"},
@@ -2489,8 +2772,12 @@ func genTotality(g *Rng, tier string) *Plan {
 				st.Fault = Pick(g, "status_endless", "status_endless", faults[g.Intn(len(faults))])
 			}
 			switch st.Fault {
-			case "garbage", "wrong_envelope", "wrong_irt", "bad_status", "wrong_doc", "good":
+			case "garbage", "wrong_envelope", "wrong_irt", "bad_status", "wrong_doc", "good", "soap_fault":
 				st.Variant = g.Intn(12)
+			}
+			if st.Fault == "bad_status" {
+				// the failure is reported the way the specification says: second-level codes, a message, a detail
+				st.Sub, st.Msg, st.Detail = g.PickW(25, 40, 20, 15), g.PickW(40, 25, 10, 5, 10, 10), g.Bool(0.25)
 			}
 			st.Layout = Pick(g, "R", "A", "RA")
 			st.Encrypt = g.Bool(0.25)
@@ -2568,13 +2855,15 @@ func genTotality(g *Rng, tier string) *Plan {
 			st.Layer = "xml"
 			switch st.Family {
 			case "response":
+				ops = append(ops, "status-shape", "status-shape", "status-shape", "status-shape", "status-shape", "status-shape", "status-shape", "status-shape")
 				ops = append(ops, "keyinfo-cert-text", "keyinfo-cert-text", "keyinfo-cert-text", "retrieval-method", "retrieval-method", "retrieval-method", "encryptedkey-algorithm", "encryptedkey-algorithm", "encryptedkey-algorithm", "forged-assertion-first", "forged-assertion-first", "forged-assertion-first", "strip-keyinfo", "strip-keyinfo", "strip-keyinfo", "cipher-algorithm", "cipher-algorithm", "cipher-algorithm", "cipher-algorithm", "cipher-algorithm", "ciphervalue-short", "ciphervalue-short", "ciphervalue-short", "ciphervalue-short", "encrypted-plaintext", "encrypted-plaintext", "encrypted-plaintext", "encrypted-plaintext")
-				if st.Entry == "ParseResponse/post" {
+				if st.Entry == "ParseResponse/post" || st.Entry == "samlsp.Middleware/post" {
 					ops = append(ops, "b64-cut", "b64-pad", "b64-badchar")
 				}
 			case "logout", "authnrequest":
 				ops = append(ops, "b64-cut", "b64-pad", "b64-badchar", "b64-badchar")
 				if st.Family == "logout" {
+					ops = append(ops, "status-shape", "status-shape", "status-shape")
 					ops = append(ops, "strip-keyinfo", "strip-keyinfo", "strip-keyinfo", "keyinfo-cert-text", "keyinfo-cert-text")
 				}
 				if c09Deflated(st.Entry) {
@@ -2628,6 +2917,10 @@ func genTotality(g *Rng, tier string) *Plan {
 			case "hostile-attribute":
 				st.Variant = g.Intn(len(c09HostileAttrs))
 				st.N = g.Intn(len(c09HostileValues) + 1)
+			case "status-shape":
+				st.Variant = g.Intn(len(c09StatusTops) * len(c09SubCodes)) // top-level code, and where the rotation of subordinate codes starts
+				st.Sub, st.Msg, st.Detail = g.PickW(25, 40, 20, 15), g.PickW(40, 25, 10, 5, 10, 10), g.Bool(0.25)
+				st.N = g.Intn(2) // artifact entry points: whose Status
 			case "cipher-algorithm":
 				st.Variant = g.Intn(len(c09CipherAlgs))
 				st.N = g.Intn(len(c09CipherLens))
@@ -2805,7 +3098,7 @@ func simplifyTotality(p *Plan) []*Plan {
 				with(i, func(s *c09Step) { s.Omit[j] = to })
 			}
 		}
-		if st.Kind == "corrupt" && !(st.Op == "rootless-document" && st.Layer == "xml") && st.Op != "ciphervalue-short" && st.Op != "encrypted-plaintext" && st.Op != "cipher-algorithm" && st.Op != "strip-keyinfo" && st.Op != "hostile-attribute" && st.Op != "keyinfo-cert-text" && st.Op != "retrieval-method" && st.Op != "encryptedkey-algorithm" && st.Op != "forged-assertion-first" && st.Op != "many-declarations-many-children" {
+		if st.Kind == "corrupt" && !(st.Op == "rootless-document" && st.Layer == "xml") && st.Op != "ciphervalue-short" && st.Op != "encrypted-plaintext" && st.Op != "cipher-algorithm" && st.Op != "strip-keyinfo" && st.Op != "hostile-attribute" && st.Op != "keyinfo-cert-text" && st.Op != "retrieval-method" && st.Op != "encryptedkey-algorithm" && st.Op != "forged-assertion-first" && st.Op != "many-declarations-many-children" && st.Op != "status-shape" {
 			with(i, func(s *c09Step) {
 				s.Op, s.Layer, s.Variant, s.Pms, s.N, s.Pm = "rootless-document", "xml", 0, nil, 0, 0
 			})
@@ -2893,7 +3186,7 @@ func simplifyTotality(p *Plan) []*Plan {
 func init() {
 	register(&Profile{
 		ID: "C09", Name: "totality", Level: "fault_enumeration",
-		Rule: "a run is either (1) a back-channel fault sequence: 1-4 artifact resolutions (ParseResponse with SAMLart) / FetchMetadata calls through a SimTransport, each with one fault kind of the enumeration {conn_err, status 401/404/500/503/302(+Location), empty, truncated(err|clean)@permille, slow(chunks x delay), stall headers|body until the client/context deadline, garbage, SOAP fault, 10 wrong envelopes, wrong InResponseTo(other|absent|previous), bad status, unsigned, wrong key, good} - every kind x position is covered and counted in extra[cov:...]; or (2) 1-3 in-flight inputs: a foreign IdP omits a sampled subset of optional elements/attributes and re-signs (Response, Assertion plaintext/encrypted in R/A/RA signing layouts, LogoutResponse, AuthnRequest, registered SP metadata, metadata documents), or the network corrupts a genuine message (truncate, bit flips, base64 cut/pad/bad char, deflate-layer damage, rootless documents, depth-10k nesting, MB-sized attribute, CipherValue of 0-4 blocks(+1), foreign plaintext under valid encryption), or a 12-300 MB deflate bomb, on every consuming entry point of SP, IdP, bundled server and metadata parser. Part (1) is enumerated, part (2) is sampled. non-trivial = the run contains at least one input that is not the genuine message / at least one injected back-channel fault; distinct = distinct abstract event log (entry, shape, parameters, expectation, outcome class); back-channel faults include a body whose Close fails, an endless chain of 307 redirects to fresh URLs (more than 200 back-channel requests in one call is a hang) and a body shorter or longer than its announced length; 30% of artifact deliveries present a well-formed type-4 artifact with endpoint index 0,1,2,3 or 65535; encrypted assertions use every content-encryption algorithm the library registers a decrypter for (aes128/192/256-cbc, tripledes-cbc, aes128-gcm) and six key-transport variants, with cipher values of 19 lengths; root-element attributes whose text is parsed (URLs, instants, numbers) take 30 hostile texts before signing; KeyInfo is dropped from signatures while the SP's IdP metadata lists one certificate, two, or one beside an entry that is no certificate; metadata carries 17 further xsd:duration / xsd:dateTime lexical forms (64+ fraction digits, huge years, empty, year 0); the certificate text inside a signature's KeyInfo takes 14 shapes (PEM armour opened/closed/reversed, empty, garbage, truncated, 100 kB) under fingerprint, pinned and metadata trust; EncryptedData carries a RetrievalMethod with 13 URI shapes, the EncryptedKey beside it; metadata carries AffiliationDescriptor, the other role descriptors, Organization, ContactPerson, Extensions; a worker process that dies inside a run (stack overflow, out of memory: not a panic) leaves the plan behind, the driver re-executes it alone and reports class fatal if the process dies again; in 30% of the response inputs the service provider holds another key than the RSA key the IdP knows it by (an ECDSA key, another RSA key, the same RSA key behind a crypto.Signer that only signs) and/or the assertion is encrypted to the certificate of another RSA key: signatures are judged as before, and a response whose only assertion is encrypted to a key the SP does not hold must come back as an error",
+		Rule: "a run is either (1) a back-channel fault sequence: 1-4 artifact resolutions (ParseResponse with SAMLart) / FetchMetadata calls through a SimTransport, each with one fault kind of the enumeration {conn_err, status 401/404/500/503/302(+Location), empty, truncated(err|clean)@permille, slow(chunks x delay), stall headers|body until the client/context deadline, garbage, SOAP fault, 10 wrong envelopes, wrong InResponseTo(other|absent|previous), bad status, unsigned, wrong key, good} - every kind x position is covered and counted in extra[cov:...]; or (2) 1-3 in-flight inputs: a foreign IdP omits a sampled subset of optional elements/attributes and re-signs (Response, Assertion plaintext/encrypted in R/A/RA signing layouts, LogoutResponse, AuthnRequest, registered SP metadata, metadata documents), or the network corrupts a genuine message (truncate, bit flips, base64 cut/pad/bad char, deflate-layer damage, rootless documents, depth-10k nesting, MB-sized attribute, CipherValue of 0-4 blocks(+1), foreign plaintext under valid encryption), or a 12-300 MB deflate bomb, on every consuming entry point of SP, IdP, bundled server and metadata parser. Part (1) is enumerated, part (2) is sampled. non-trivial = the run contains at least one input that is not the genuine message / at least one injected back-channel fault; distinct = distinct abstract event log (entry, shape, parameters, expectation, outcome class); back-channel faults include a body whose Close fails, an endless chain of 307 redirects to fresh URLs (more than 200 back-channel requests in one call is a hang) and a body shorter or longer than its announced length; 30% of artifact deliveries present a well-formed type-4 artifact with endpoint index 0,1,2,3 or 65535; encrypted assertions use every content-encryption algorithm the library registers a decrypter for (aes128/192/256-cbc, tripledes-cbc, aes128-gcm) and six key-transport variants, with cipher values of 19 lengths; root-element attributes whose text is parsed (URLs, instants, numbers) take 30 hostile texts before signing; KeyInfo is dropped from signatures while the SP's IdP metadata lists one certificate, two, or one beside an entry that is no certificate; metadata carries 17 further xsd:duration / xsd:dateTime lexical forms (64+ fraction digits, huge years, empty, year 0); the certificate text inside a signature's KeyInfo takes 14 shapes (PEM armour opened/closed/reversed, empty, garbage, truncated, 100 kB) under fingerprint, pinned and metadata trust; EncryptedData carries a RetrievalMethod with 13 URI shapes, the EncryptedKey beside it; metadata carries AffiliationDescriptor, the other role descriptors, Organization, ContactPerson, Extensions; a worker process that dies inside a run (stack overflow, out of memory: not a panic) leaves the plan behind, the driver re-executes it alone and reports class fatal if the process dies again; in 30% of the response inputs the service provider holds another key than the RSA key the IdP knows it by (an ECDSA key, another RSA key, the same RSA key behind a crypto.Signer that only signs) and/or the assertion is encrypted to the certificate of another RSA key: signatures are judged as before, and a response whose only assertion is encrypted to a key the SP does not hold must come back as an error; the Status of a reply (Response, ArtifactResponse, LogoutResponse; set before signing) takes the shapes of the specification: a top-level code (Requester, Responder, VersionMismatch, Success) with 0-3 subordinate StatusCodes nested in it (codes of the specification, a foreign one, an empty one, one without Value), one of 5 StatusMessages (plain, empty, white space, format verbs, 90 kB) or none, a StatusDetail or none - also for the bad_status back-channel fault; the resolver's SOAP fault takes 12 shapes (faultcode and faultstring, only one of them, neither, empty ones, qualified or SOAP 1.2 children, actor and detail, two faults, a SOAP 1.2 envelope, a 100 kB string); responses are also delivered to the bundled samlsp.Middleware at /saml/acs (POST and artifact binding, a request tracker with one pending login, the library's default error handler writing to a logger that formats its line): no panic, exactly one well-formed reply, the genuine message gives a redirect with a session cookie",
 		Gen:  genTotality, Exec: execTotality, Simplify: simplifyTotality,
 		RunsQuick: 3000, RunsThorough: 300000,
 		Assumptions: []string{
@@ -2904,8 +3197,8 @@ func init() {
 			"omitted-element inputs: the statement fixes only totality and error typing, accept/reject is a declared don't-care",
 		},
 		Components: map[string][]string{
-			"real": {"saml.ServiceProvider.ParseResponse/ParseXMLResponse/ParseXMLArtifactResponse/ValidateLogoutResponse{Form,Redirect,Request}", "saml.NewIdpAuthnRequest+Validate", "saml.IdentityProvider.ServeSSO", "samlidp.Server (PUT /services/, /sso) over MemoryStore", "samlsp.ParseMetadata/FetchMetadata", "net/http.Client (timeouts, redirects)", "goxmldsig", "xmlenc", "etree", "xml-roundtrip-validator", "compress/flate"},
-			"stub": {"SimTransport (http.RoundTripper: conn error, status, truncation, slow/stalled bodies on the bubble clock)", "foreign IdP (library schema types + goxmldsig signing, optional parts removed before signing)", "network corruption operators"},
+			"real": {"saml.ServiceProvider.ParseResponse/ParseXMLResponse/ParseXMLArtifactResponse/ValidateLogoutResponse{Form,Redirect,Request}", "saml.NewIdpAuthnRequest+Validate", "saml.IdentityProvider.ServeSSO", "samlidp.Server (PUT /services/, /sso) over MemoryStore", "samlsp.ParseMetadata/FetchMetadata", "samlsp.Middleware.ServeHTTP (/saml/acs) with DefaultOnError, default session provider", "net/http.Client (timeouts, redirects)", "goxmldsig", "xmlenc", "etree", "xml-roundtrip-validator", "compress/flate"},
+			"stub": {"SimTransport (http.RoundTripper: conn error, status, truncation, slow/stalled bodies on the bubble clock)", "foreign IdP (library schema types + goxmldsig signing, optional parts removed before signing)", "network corruption operators", "request tracker with one pending login (samlsp.Middleware entry)"},
 		},
 	})
 }
